@@ -184,7 +184,8 @@ func (fr *Frame) run(pc0 *Term, st0 *State) (*Term, *State, []Value) {
 			if len(conds) == 0 {
 				continue // unreachable
 			}
-			pc = B.Or(conds...)
+			pc = B.OrFactored(conds...)
+			_, conds = B.Relativize(conds)
 			st = x.mergeStates(conds, states)
 			// phis
 			for _, in := range b.Instrs {
@@ -232,7 +233,8 @@ func (fr *Frame) run(pc0 *Term, st0 *State) (*Term, *State, []Value) {
 		conds = append(conds, r.pc)
 		states = append(states, r.state)
 	}
-	rpc := B.Or(conds...)
+	rpc := B.OrFactored(conds...)
+	_, conds = B.Relativize(conds)
 	rst := x.mergeStates(conds, states)
 	nres := fn.Signature.Results().Len()
 	vals := make([]Value, nres)
@@ -264,8 +266,8 @@ func (fr *Frame) setEdge(from, to *ssa.BasicBlock, pc *Term, st *State) {
 	}
 	if old, ok := fr.edges[key]; ok {
 		// two edges between the same blocks (e.g. if with same targets)
-		c := []*Term{old.pc, pc}
-		fr.edges[key] = &edgeInfo{pc: fr.x.B.Or(old.pc, pc), state: fr.x.mergeStates(c, []*State{old.state, st})}
+		_, c := fr.x.B.Relativize([]*Term{old.pc, pc})
+		fr.edges[key] = &edgeInfo{pc: fr.x.B.OrFactored(old.pc, pc), state: fr.x.mergeStates(c, []*State{old.state, st})}
 		return
 	}
 	fr.edges[key] = &edgeInfo{pc: pc, state: st}
@@ -779,11 +781,11 @@ func (fr *Frame) intBinop(v *ssa.BinOp, a, b *Term, pc *Term, pos string) *Term 
 	case token.GEQ:
 		return B.Ge(a, b)
 	case token.ADD:
-		return x.wrapBits(B.Add(a, b), bits, signed)
+		return fr.arith(B.Add(a, b), bits, signed, pc, pos, v)
 	case token.SUB:
-		return x.wrapBits(B.Sub(a, b), bits, signed)
+		return fr.arith(B.Sub(a, b), bits, signed, pc, pos, v)
 	case token.MUL:
-		return x.wrapBits(B.Mul(a, b), bits, signed)
+		return fr.arith(B.Mul(a, b), bits, signed, pc, pos, v)
 	case token.QUO, token.REM:
 		if x.mode.Sweep {
 			x.oblige("divzero", describe(v.Y), pos, pc, B.Neq(b, B.Int(0)))
@@ -827,6 +829,31 @@ func (fr *Frame) intBinop(v *ssa.BinOp, a, b *Term, pc *Term, pos string) *Term 
 		return x.uf2("shr", a, b, t)
 	}
 	panic(stopExec{"unsupported int binop " + v.Op.String()})
+}
+
+// arith: the result of a +, -, * on machine integers. In a function whose
+// contract says "nowrap", signed 64-bit results are proved to stay in range
+// (obligation kind "overflow") and are then used unwrapped, which keeps the
+// verification conditions linear; everywhere else the result wraps exactly.
+func (fr *Frame) arith(r *Term, bits uint, signed bool, pc *Term, pos string, v *ssa.BinOp) *Term {
+	x := fr.x
+	B := x.B
+	if !x.noWrap || !signed || bits != 64 {
+		return x.wrapBits(r, bits, signed)
+	}
+	w := x.wrapBits(r, bits, signed)
+	if w == r {
+		return r // the interval analysis already shows it is in range
+	}
+	lo := B.BigInt(new(big.Int).Neg(pow2(63)))
+	hi := B.BigInt(new(big.Int).Sub(pow2(63), big.NewInt(1)))
+	in := B.And(B.Le(lo, r), B.Le(r, hi))
+	if !B.hasBoundVar(r) {
+		o := x.oblige("overflow", describeInstr(v), pos, pc, in)
+		o.Extra = map[string]string{"what": "signed 64-bit arithmetic must not overflow (function verified with mathematical integers after this check)"}
+		x.assume(pc, in, "no overflow (proved as an obligation)")
+	}
+	return r
 }
 
 func (x *X) truncDivMod(a, b *Term) (*Term, *Term) {
